@@ -457,3 +457,86 @@ def r7(ctx: Ctx) -> None:
                         n += 1
                         ctx.holds(f, e.node, "in-place change of a group's settings happens on a copy", "copy returned by json_extends / .copy()", short(b)[:120])
     ctx.require(n >= 4, "in-place changes of expanded group settings not found (8 confirmed by reading)")
+
+
+def _terms_of_events(path: Path, into_loops: bool = False):
+    for e in path.walk_events(into_loops):
+        if e.kind == "call":
+            if e.recv is not None:
+                yield e, e.recv
+            for a in e.args:
+                yield e, a
+            for _, v in e.kwargs:
+                yield e, v
+        elif e.kind == "store":
+            yield e, e.value
+            if e.index is not None and isinstance(e.index, tuple):
+                yield e, e.index
+        elif e.kind == "loop" and e.iter is not None:
+            yield e, e.iter
+
+
+def _additive(name: str, l: Event) -> bool:
+    """every iteration leaves `name` at its entry value plus something (a counter / running offset),
+    possibly through an inner loop that does the same"""
+    ph = l.phi.get(name)
+    for bp in l.paths:
+        if bp.exit[0] == "raise":
+            continue
+        v = bp.env.get(name)
+        if v is None or v == ph or (v[0] == "bin" and v[1] == "+" and ph in (v[2], v[3])):
+            continue
+        inner = [il for il in loops(bp) if il.out.get(name) == v]
+        if inner and inner[0].init.get(name) is not None and (inner[0].init[name] == ph or (inner[0].init[name][0] == "bin" and inner[0].init[name][1] == "+" and ph in inner[0].init[name][2:])) and _additive(name, inner[0]):
+            continue
+        return False
+    return True
+
+
+def _uses_of(ph: Term, l: Event):
+    """events of the loop body (and of inner loops entered with the same value) that consume ph"""
+    for bp in l.paths:
+        if bp.exit[0] == "raise":
+            continue
+        for e, t in _terms_of_events(bp):
+            if ph in list(subterms(t)):
+                yield bp, e
+        for il in loops(bp):
+            yield from _uses_of(ph, il)  # visible unchanged inside the inner loop
+            for n2, v2 in (il.init or {}).items():
+                if v2 == ph and n2 in il.phi:
+                    yield from _uses_of(il.phi[n2], il)
+
+
+def check_no_carry_over(ctx: Ctx) -> int:
+    """in the loops that expand groups, sessions and events, nothing but running counters survives from
+    one iteration to the next: a per-group value (default or configured) that is set on some paths
+    only must not reach a call or store through the paths that leave it unset"""
+    n = 0
+    for q in ("SequentialRunner._generate_markets", "SequentialRunner._generate_agents", "SequentialRunner._generate_sessions"):
+        f = ctx.func(q)
+        for p in normal_paths(ctx.paths(q)):
+            for l in loops(p):
+                n += 1
+                for name, ph in l.phi.items():
+                    if _additive(name, l):
+                        continue  # a running counter / accumulated offset
+                    vals = [bp.env.get(name) for bp in l.paths if bp.exit[0] != "raise"]
+                    per_iter = [v for v in vals if v is not None and v != ph and ph not in list(subterms(v))]
+                    if not per_iter:
+                        continue
+                    used = list(_uses_of(ph, l))
+                    if used:
+                        bp, e = used[0]
+                        ctx.violated(f, e.node, f"{q}: `{name}` is a per-iteration value; what an earlier iteration left in it never reaches a later one", f"`{name}` is (re)set in every iteration before it is used",
+                                     f"on [{bp.describe()[:100]}] the value left by the previous iteration flows into {short(e.term) if e.kind == 'call' else (short(e.target) if e.kind == 'store' else 'a loop')}"[:300])
+                    else:
+                        ctx.holds(f, l.node, f"{q}: `{name}` is a per-iteration value set before use", "set in every iteration before it is used", "never read before it is set")
+            break
+    return n
+
+
+@rule("C18.R8", "group expansion keeps groups apart: defaults and configured values of one group never leak into the next", "T12 loop-carried dataflow", floor=3)
+def r8(ctx: Ctx) -> None:
+    n = check_no_carry_over(ctx)
+    ctx.require(n >= 3, "expansion loops not found")
